@@ -120,11 +120,20 @@ Proof.
   now rewrite G.
 Qed.
 
+Lemma transform_forest_text : forall m t t' l,
+    transform_forest (with_text m t) l = transform_forest (with_text m t') l.
+Proof.
+  intros m t t'. induction l as [|c l IH]; [reflexivity|].
+  cbn [transform_forest]. now rewrite (transform_tree_text m t t'), IH.
+Qed.
+
+(* the lorem draws come from the oracle of the configuration, which with_text keeps *)
 Lemma transform_list_text : forall m t t' l,
     transform_list (with_text m t) l = transform_list (with_text m t') l.
 Proof.
-  intros m t t'. induction l as [|c l IH]; [reflexivity|].
-  cbn [transform_list]. now rewrite (transform_tree_text m t t'), IH.
+  intros m t t' l. unfold transform_list.
+  replace (mc_draws (with_text m t)) with (mc_draws (with_text m t')) by (destruct m; reflexivity).
+  destruct (lorem_fill _ l); cbn [bind]; try reflexivity. apply transform_forest_text.
 Qed.
 
 (* ------------------------------------------------------------------------------------------
